@@ -178,14 +178,29 @@ fn enum_many(t: Tier, shard: usize, n: usize, f: &mut dyn FnMut(Bytes) -> bool) 
 // ---- 1c. arrangements of a few special entries: every sequence of up to 5 records drawn from {A, OPT, OPT with an
 // option, CNAME, empty-RDATA record} in each record section, with exact and with overstated counts
 
+const SPECIAL_RECORDS: [&[u8]; 5] = [
+    &[0, 0, 1, 0, 1, 0, 0, 0, 5, 0, 4, 10, 0, 0, 1],
+    &[0, 0, 41, 0x04, 0xd0, 0, 0, 0, 0, 0, 0],
+    &[0, 0, 41, 0x02, 0x00, 0x01, 0x02, 0x80, 0, 0, 6, 0, 10, 0, 2, 0xab, 0xcd],
+    &[0, 0, 5, 0, 1, 0, 0, 0, 9, 0, 3, 1, b'x', 0],
+    &[0, 0, 99, 0x80, 1, 0, 0, 0, 0, 0, 0],
+];
+
+/// a message whose record section `section` (1..=3) holds the given special records (indices into SPECIAL_RECORDS)
+/// and announces `extra` more; `response` sets the QR bit
+pub fn render_arrangement(kinds: &[u8], section: usize, extra: u16, response: bool) -> Vec<u8> {
+    let mut m = vec![0x12, 0x34, if response { 0x80 } else { 0x00 }, 0x00, 0, 0, 0, 0, 0, 0, 0, 0];
+    for k in kinds {
+        m.extend_from_slice(SPECIAL_RECORDS[*k as usize % 5]);
+    }
+    let section = section.clamp(1, 3);
+    let count = (kinds.len() as u16).wrapping_add(extra);
+    m[4 + 2 * section..6 + 2 * section].copy_from_slice(&count.to_be_bytes());
+    m
+}
+
 fn enum_arrangements(_t: Tier, shard: usize, n: usize, f: &mut dyn FnMut(Bytes) -> bool) {
-    let kinds: [&[u8]; 5] = [
-        &[0, 0, 1, 0, 1, 0, 0, 0, 5, 0, 4, 10, 0, 0, 1],
-        &[0, 0, 41, 0x04, 0xd0, 0, 0, 0, 0, 0, 0],
-        &[0, 0, 41, 0x02, 0x00, 0x01, 0x02, 0x80, 0, 0, 6, 0, 10, 0, 2, 0xab, 0xcd],
-        &[0, 0, 5, 0, 1, 0, 0, 0, 9, 0, 3, 1, b'x', 0],
-        &[0, 0, 99, 0x80, 1, 0, 0, 0, 0, 0, 0],
-    ];
+    let kinds = SPECIAL_RECORDS;
     let mut idx = 0usize;
     for len in 0..=5usize {
         for code in 0..5usize.pow(len as u32) {
